@@ -309,6 +309,17 @@ def run_check(prop, tier):
             notes += wr["notes"]
             coverage["websocket_odd_frames"] = wr["coverage"]
             coverage["traces_validated_against_impl"] += wr["coverage"]["rows"]
+        if prop == "C06":
+            # websocket side: a transport that is slow for a while (the write queue full, writers waiting) loses nothing
+            import check_bad
+            wr = check_bad.collect_ws("C06", tier, events=("slowWrite",),
+                                      rule="a transport write that takes 2.4 s with 1-3 writers and two messages each on a real "
+                                           "ws.WebsocketConnection: every message handed to the open connection reaches the peer")
+            violations += wr["violations"]
+            known_hits.update(wr["known_hits"])
+            notes += wr["notes"]
+            coverage["websocket_slow_transport"] = wr["coverage"]
+            coverage["traces_validated_against_impl"] += wr["coverage"]["rows"]
         if prop in ("C01", "C11"):
             # hub level: C11 - the end of a connection object and the registry / notifications; C01 - the hub holds a service
             # trusted (and answers its connections 'paired') only on the user's word (HubApi.tla, MonHub.tla)
